@@ -80,7 +80,7 @@ theorem C09_closed_skips_wait {s s' : State} {t : Nat} {a : Act} {tl : Option Na
 /-- Non-vacuity: consumer parks on the empty queue, close() comes from outside, consumer wakes and returns STOP. -/
 def demo9 : Option State := do
   let run (s : State) (ts : List Nat) : Option State := ts.foldlM (fun s t => (step s t).map (·.1)) s
-  let s ← call (init 4 false []) 0 (.pop none)
+  let s ← call (init 4 false true []) 0 (.pop none)
   let s ← run s [0, 0, 0, 0, 0]
   let s := envClose s
   run s [0, 0, 0, 0]
